@@ -121,6 +121,18 @@ func decorate(d ocispec.Descriptor, k uint32) ocispec.Descriptor {
 	return d
 }
 
+func mediaTypeRendering(mt string, k uint32) string {
+	switch k % 4 {
+	case 1:
+		return mt + "; charset=utf-8"
+	case 2:
+		return strings.Replace(mt, "application/", "application/X-", 1) // (another type altogether, in mixed case)
+	case 3:
+		return strings.ToUpper(mt[:1]) + mt[1:]
+	}
+	return mt
+}
+
 func runSigRepo() int {
 	cases := readCases(*flagCases)
 	fn := func(c rawCase) []traceLine {
@@ -214,7 +226,9 @@ func runSigRepo() int {
 			panicked, msg := guarded(func() {
 				switch it.Kind {
 				case "sig":
-					rec.mt = mediaTypeOf(it.MT)
+					// the envelope's media type as the caller states it: plain, with a parameter, in other letter case - it is stored and handed
+					// back as stated
+					rec.mt = mediaTypeRendering(mediaTypeOf(it.MT), mix(*flagSeed, c.ID, fmt.Sprintf("mt-%d", n)))
 					_, rec.manifest, perr = repo.PushSignature(ctx, rec.mt, blob, subj, ann)
 				case "sigBlobGone":
 					rec.mt = mtJWS
@@ -279,6 +293,14 @@ func runSigRepo() int {
 				rec.manifest = img(artifactTypeNotation, nil, []ocispec.Descriptor{layer(blob, mtJWS)}, 0)
 			case "noSubjectLayerIsArtifact":
 				rec.manifest = img(artifactTypeNotation, nil, []ocispec.Descriptor{{MediaType: subj.MediaType, Digest: subj.Digest, Size: subj.Size}}, 0)
+			case "bigIndexMember":
+				// an image index beyond the manifest cap that lists the artifact among its MEMBERS (a predecessor in the store, but
+				// neither a referrer nor a signature): nothing to do with the artifact's signatures
+				idx := ocispec.Index{Versioned: specs.Versioned{SchemaVersion: 2}, MediaType: ocispec.MediaTypeImageIndex, ArtifactType: artifactTypeNotation,
+					Manifests: []ocispec.Descriptor{{MediaType: subj.MediaType, Digest: subj.Digest, Size: subj.Size}}, Annotations: ann}
+				d, err := pushJSON(ctx, target, ocispec.MediaTypeImageIndex, idx, 4*1024*1024+1)
+				must(err)
+				rec.manifest = d
 			case "hostile0":
 				rec.manifest = img(artifactTypeNotation, &subj, nil, 0)
 			case "hostile2":
